@@ -84,6 +84,13 @@ impl ZoSortedStrVec {
             return Ok(Self::empty());
         }
 
+        // Strings are stored NUL-terminated: a string that contains NUL cannot be represented
+        if strings.iter().any(|s| s.as_bytes().contains(&0)) {
+            return Err(ZiporaError::invalid_data(
+                "Strings must not contain NUL bytes",
+            ));
+        }
+
         // Verify strings are sorted
         for i in 1..strings.len() {
             if strings[i - 1] > strings[i] {
